@@ -111,6 +111,21 @@ def cycles_follow_vehicles(ctx, sites):
             if not any(frozenset(cd.get(i.bb, ())) == key_u and fd.cfg.instr_dominates(u, i) or
                        (frozenset(cd.get(i.bb, ())) == key_u) for i in inserts):
                 bad.append(u)
+        # ... and the map lives as long as the batch: it is created before the loop over the changed vehicles, not once per vehicle
+        reset = None
+        loops = loops_of(fd)
+        for l in sorted(maps):
+            for d in fd.defs.get(l, ()):
+                if d.kind == "call-dest" and d.instr is not None and (d.instr.callee or "").endswith("HashMap::new"):
+                    for nc, entry in loops:
+                        if d.instr.bb in fd.cfg.reachable_from(entry) and nc.bb in fd.cfg.reachable_from(d.instr.bb) \
+                                and any(u.bb in fd.cfg.reachable_from(entry) for u in upd):
+                            reset = d.instr
+        if reset is not None and not bad:
+            ctx.bad(o, "the map of already updated tours is created anew in every round of the loop (%s): a vehicle updated earlier in the "
+                    "batch is forgotten when its neighbour is updated, which then computes its depot-to-depot distance from the stale tour"
+                    % reset.line(), loc=reset.line())
+            return
         ctx.decide(o, bool(upd) and bool(maps) and not bad, "%d staying-vehicle branches, each followed by an insert into the consulted map" % len(upd),
                    "after %s at %s the new tour is not recorded in the map consulted by later updates of the same batch: a neighbour "
                    "updated later computes its depot-to-depot distance from the stale tour" % (
